@@ -24,6 +24,7 @@ UNIT_TIMEOUT = {"quick": 240, "thorough": 2400}
 PROFILE = gen.profile(
     p_shared=0.0,
     p_result=0.0,
+    p_future_result=0.0,
     p_same_object=0.0,  # a coroutine object cannot be awaited twice: re-yielding is not part of what .asyncio() promises
     p_item_fault=0.0,
     p_wrap=0.0,
